@@ -413,7 +413,41 @@ fn gen_matrix(rng: &mut Rng) -> Mat {
     let r = rng.below(100);
     let mut mat = vec![[0f32; K]; m];
     let mk;
-    if r < 30 {
+    if r < 8 {
+        // clustered top words (the shape of the F13 witness): the first row has three
+        // close high cells and one low cell, the other rows one high cell over three
+        // equal low cells -- consecutive integer scores at g = 0.1 whose images at
+        // g = 0.01 spread over +-9M around ten times the old ones
+        mk = "cluster";
+        // cell = (integer + fraction) / 10: at g = 0.1 the fraction is the rounding error of the
+        // cell, its first digit decides where the cell lands at g = 0.01; high cells and row minima
+        // get fractions of opposite classes so that all top words move the same way
+        let small = [0.05f64, 0.15, 0.25, 0.125];
+        let large = [0.65f64, 0.75, 0.85, 0.95, 0.875];
+        let flip = rng.chance(1, 3);
+        let (fh, fl) = if flip { (&large[..], &small[..]) } else { (&small[..], &large[..]) };
+        let step = 1 + rng.below(2) as i64;
+        for (i, row) in mat.iter_mut().enumerate() {
+            if i == 0 {
+                let hi = rng.range(8, 30);
+                let lo = -rng.range(2, 12);
+                row[0] = ((hi as f64 + *rng.pick(fh)) / 10.0) as f32;
+                row[1] = (((hi - step) as f64 + *rng.pick(fh)) / 10.0) as f32;
+                row[2] = (((hi - 2 * step) as f64 + *rng.pick(fh)) / 10.0) as f32;
+                row[3] = ((lo as f64 + *rng.pick(fl)) / 10.0) as f32;
+            } else {
+                let h = rng.range(2, 12);
+                let l = -rng.range(1, 9);
+                let lowv = ((l as f64 + *rng.pick(fl)) / 10.0) as f32;
+                row[0] = ((h as f64 + *rng.pick(fh)) / 10.0) as f32;
+                row[1] = lowv;
+                row[2] = lowv;
+                row[3] = if rng.chance(1, 4) { lowv - 0.5 } else { lowv };
+            }
+            let sh = rng.below(4) as usize;
+            row[..4].rotate_left(sh);
+        }
+    } else if r < 30 {
         // fine grid: multiples of 1/1024 in [-8, 4]
         mk = "fine";
         for row in mat.iter_mut() {
@@ -582,6 +616,13 @@ fn gen(prop: &str, seed: u64, n: usize, tier: &str) {
                 if tails.len() >= 2 {
                     let k = rng.below(tails.len() as u64 - 1) as usize;
                     let u = (1 + rng.below(9)) as f64 / 10.0;
+                    queries.push(("between", tails[k] + (tails[k + 1] - tails[k]) * u));
+                }
+            }
+            if mx.mk == "cluster" {
+                // thresholds between the best few words (where the integer scores are consecutive)
+                for k in 0..tails.len().saturating_sub(1).min(5) {
+                    let u = (1 + rng.below(3)) as f64 / 4.0;
                     queries.push(("between", tails[k] + (tails[k + 1] - tails[k]) * u));
                 }
             }
